@@ -370,6 +370,12 @@ def judge_lifecycle(case, obs, responses):
                          kind="http-lifecycle/" + case["mode"], nontrivial=True, failed_clause="deadlock")
     if obs.get("infrastructure") or obs.get("harness_exception"):
         _infra(case, obs)
+    for i, st in enumerate(obs.get("steps") or []):
+        if (st.get("probe") or {}).get("kept_open"):
+            # "HTTP worker threads end with their response"
+            return Judgement(case, False, True, {"step": i, "op": st["op"], "probe": st["probe"]},
+                             kind="http-lifecycle/" + case["mode"], nontrivial=True,
+                             failed_clause="worker_outlives_response")
     m = responses[0]
     if "err" in m:
         raise core.Infra(f"driver error: {m['err']}")
@@ -821,6 +827,9 @@ def gen_c20_http(rng, tier, mult=1):
     for steps in (["start", "stop"], ["start", "stop", "stop", "start", "stop"], ["start", "start", "stop"]):
         yield {"proto": "http", "kind": "lifecycle", "bind": "::1", "mode": "seq", "steps": steps, "idle_client": True,
                "_meta": {"kind": "c20-http/seq-idle-client"}}
+    for steps in (["start", "stop"], ["start", "start", "stop", "start"]):
+        yield {"proto": "http", "kind": "lifecycle", "bind": "::1", "mode": "seq", "steps": steps, "probe_version": "1.1",
+               "_meta": {"kind": "c20-http/seq-http11-client"}}
     for steps in (["start_blocked"], ["start_blocked", "start"], ["start", "stop", "start_blocked", "start"],
                   ["start_blocked", "stop", "start", "stop"], ["start", "start_blocked", "stop"]):
         yield {"proto": "http", "kind": "lifecycle", "bind": "::1", "mode": "seq", "steps": steps,
